@@ -801,6 +801,58 @@ func main() {
 			glue = append(glue, mname+": "+strings.Join(ts, "; "))
 		}
 		emitStrList("indexGlue", glue, len(glue) > 0)
+		// the index rebuild of NewCollection: the callback handed to IterateRecords, statement by statement,
+		// and the two fields the one new forest is stored in (Search walks c.index, the mutators use c.lshTree)
+		var rebuild, fields []string
+		if fd := funcDecl("collection.go", "NewCollection"); fd != nil {
+			for _, call := range findCalls(fd.Body, "IterateRecords") {
+				if len(call.Args) == 1 {
+					if fl, ok := call.Args[0].(*ast.FuncLit); ok {
+						for _, st := range fl.Body.List {
+							rebuild = append(rebuild, strings.Join(strings.Fields(src(st)), " "))
+						}
+					}
+				}
+			}
+			ast.Inspect(fd.Body, func(x ast.Node) bool {
+				if as, ok := x.(*ast.AssignStmt); ok && len(as.Lhs) == 1 {
+					t := strings.Join(strings.Fields(src(as)), " ")
+					if strings.HasPrefix(t, "c.index =") || strings.HasPrefix(t, "c.lshTree =") || strings.HasPrefix(t, "lshTree :=") {
+						fields = append(fields, t)
+					}
+				}
+				return true
+			})
+		}
+		emitStrList("rebuildBody", rebuild, len(rebuild) > 0)
+		emitStrList("indexFields", fields, len(fields) > 0)
+		// no other function re-assigns the index fields
+		var reassigned []string
+		for fname, f := range files {
+			if strings.HasSuffix(fname, "_test.go") || f == nil {
+				continue
+			}
+			for _, d := range f.Decls {
+				fd, ok := d.(*ast.FuncDecl)
+				if !ok || fd.Body == nil || fd.Name.Name == "NewCollection" {
+					continue
+				}
+				ast.Inspect(fd.Body, func(x ast.Node) bool {
+					if as, ok := x.(*ast.AssignStmt); ok {
+						for _, l := range as.Lhs {
+							if se, ok := l.(*ast.SelectorExpr); ok && (se.Sel.Name == "index" || se.Sel.Name == "lshTree") {
+								if id, ok := se.X.(*ast.Ident); ok && id.Name == "c" {
+									reassigned = append(reassigned, fd.Name.Name+": "+strings.Join(strings.Fields(src(as)), " "))
+								}
+							}
+						}
+					}
+					return true
+				})
+			}
+		}
+		sort.Strings(reassigned)
+		emitStrList("indexReassigned", reassigned, true)
 	}
 
 	// --- distance functions: statement shapes
